@@ -801,7 +801,7 @@ func (x *Exec) applyContract(s *State, in *ssa.Call, fc *FuncContract, callee *s
 	// ghost history variables: updated by the call rule itself
 	for _, cl := range fc.clauses("ghost") {
 		if streams || strings.HasPrefix(cl.Name, "buf(") || strings.HasPrefix(cl.Name, "ixh(") {
-			x.applyGhost(s, env, cl, pre, recv)
+			x.applyGhost(s, in, env, cl, pre, recv)
 		}
 	}
 	x.applyGhostSets(s, fc, env)
@@ -1050,7 +1050,7 @@ func (x *Exec) keepOwnNavigators(s *State, pre map[string]T, args []Val, recv *s
 var streamLabels = map[string]bool{"stream-def": true, "eval-def": true, "query-value": true, "restart-deterministic": true}
 
 // applyGhost performs `ghost NAME(self) = expr`.
-func (x *Exec) applyGhost(s *State, env *specEnv, cl *Clause, pre map[string]T, recv *sval) {
+func (x *Exec) applyGhost(s *State, in *ssa.Call, env *specEnv, cl *Clause, pre map[string]T, recv *sval) {
 	i := strings.Index(cl.Name, "(")
 	if i < 0 || recv == nil {
 		x.unsupported("ghost clause %q", cl.Name)
@@ -1074,6 +1074,9 @@ func (x *Exec) applyGhost(s *State, env *specEnv, cl *Clause, pre map[string]T, 
 	}
 	if ref.Sort == SIface {
 		ref = mk(SInt, "iptr", ref)
+	}
+	if gname == "buf" {
+		x.sharedBuilderCheck(s, in, ref)
 	}
 	key := "ghost:" + gname
 	base, ok := pre[key]
